@@ -28,7 +28,7 @@ mod tests {
     use crate::layout::{Access, Arr, Kind};
 
     fn f(ranges: Vec<(u32, u32)>, array: Option<Arr>) -> Field {
-        Field { name: "x".into(), kind: Kind::Arb, ranges, array, access: Access::RW, qualified: false, type_width: None, attr_order: 0, variant_rot: 0, doc: 0, share_with: None, zero_pad: false, claims_exhaustive: false }
+        Field { name: "x".into(), kind: Kind::Arb, ranges, array, access: Access::RW, qualified: false, type_width: None, attr_order: 0, variant_rot: 0, doc: 0, share_with: None, zero_pad: false, claims_exhaustive: false, syntax: 0 }
     }
 
     // Anchor histories computed by hand from the README / test-suite examples.
